@@ -31,12 +31,12 @@ func (c12) Components() ([]string, []string) {
 }
 
 type wsView struct {
-	Root      string
-	Members   []string
-	Snap      workspace.IndexSnapshot
-	DeclAcct  map[string]bool
-	DeclCom   map[string]bool
-	Formats   any
+	Root             string
+	Members          []string
+	Snap             workspace.IndexSnapshot
+	DeclAcct         map[string]bool
+	DeclCom          map[string]bool
+	Formats          any
 	PerFileTemplates map[string]map[string][]analyzer.PostingTemplate
 	// what the server serves from this view: the analysis over the resolved
 	// tree (payee templates "later file wins", names in order of first use)
